@@ -69,10 +69,16 @@ class DSL:
                 set_instantiated_types: Set[Type] = set()
                 set_instantiated_types.add(type_P)
                 for poly_type in set_polymorphic_types_P:
+                    # a name denotes one variable: all its restrictions apply
+                    same_name = [
+                        q
+                        for q in set_polymorphic_types_P
+                        if q.name == poly_type.name
+                    ]
                     new_set_instantiated_types: Set[Type] = set()
                     for type_ in set_types:
                         if (
-                            not poly_type.can_be(type_)
+                            not all(q.can_be(type_) for q in same_name)
                             or type_.size() > upper_bound_type_size
                         ):
                             continue
